@@ -411,6 +411,12 @@ func injectorCallErrors(pos token.Position, name string, calls []call, injectSig
 					fmt.Errorf("inject %s: value %s can't be used: %v", name, ts, err)))
 			}
 		} else if c.pkg != nil && c.pkg.Path() != pkgPath {
+			if c.kind != selectorExpr && !importableFrom(c.pkg.Path(), pkgPath) {
+				ts := types.TypeString(c.out, nil)
+				errs = append(errs, notePosition(pos,
+					fmt.Errorf("inject %s: provider for %s can't be used: package %s is internal and can't be imported by %s", name, ts, c.pkg.Path(), pkgPath)))
+				continue
+			}
 			// The generated code names the provider function, the struct type
 			// and its fields, or the selected field from the injector's package.
 			idents := append([]string{c.name}, c.fieldNames...)
@@ -989,6 +995,10 @@ func accessibleFrom(info *types.Info, node ast.Node, wantPkg string) error {
 				unexportError = fmt.Errorf("uses unexported identifier %s", obj.Name())
 				return false
 			}
+			if obj.Parent() == pkg.Scope() && pkg.Path() != wantPkg && !importableFrom(pkg.Path(), wantPkg) {
+				unexportError = fmt.Errorf("uses %s of package %s, which is internal and can't be imported by %s", obj.Name(), pkg.Path(), wantPkg)
+				return false
+			}
 			if obj.Parent() != nil && obj.Parent() != pkg.Scope() {
 				unexportError = fmt.Errorf("%s is not declared in package scope", obj.Name())
 				return false
@@ -997,6 +1007,23 @@ func accessibleFrom(info *types.Info, node ast.Node, wantPkg string) error {
 		return true
 	})
 	return unexportError
+}
+
+// importableFrom reports whether the go command lets package from import
+// package path: a path with an element "internal" is only importable from
+// the tree rooted at the parent of that element.
+func importableFrom(path, from string) bool {
+	s := "/" + path + "/"
+	i := strings.LastIndex(s, "/internal/")
+	if i < 0 {
+		return true
+	}
+	parent := strings.TrimPrefix(s[:i], "/")
+	if parent == "" {
+		// An internal package of the standard library.
+		return false
+	}
+	return from == parent || strings.HasPrefix(from, parent+"/")
 }
 
 var (
